@@ -237,14 +237,14 @@ func c15Extract(w *World, r *Report) {
 		if mc, ok := c.Common().Args[1].(*ssa.MakeClosure); ok {
 			f := mc.Fn.(*ssa.Function)
 			for _, alt := range ReturnAlts(f, 0) {
-				if rel, ok := NormCond(Cond{V: alt.Val, Pol: true}); ok && strings.HasSuffix(np(rel.L), "a.Timestamp") && strings.HasSuffix(np(rel.R), "b.Timestamp") {
+				if rel, ok := normFacing(alt.Val, func(x ssa.Value) bool { return strings.HasSuffix(np(x), "a.Timestamp") }); ok && strings.HasSuffix(np(rel.L), "a.Timestamp") && strings.HasSuffix(np(rel.R), "b.Timestamp") {
 					return rel.Op
 				}
 			}
 		}
 		if f, ok := c.Common().Args[1].(*ssa.Function); ok {
 			for _, alt := range ReturnAlts(f, 0) {
-				if rel, ok := NormCond(Cond{V: alt.Val, Pol: true}); ok && strings.HasSuffix(np(rel.L), "a.Timestamp") && strings.HasSuffix(np(rel.R), "b.Timestamp") {
+				if rel, ok := normFacing(alt.Val, func(x ssa.Value) bool { return strings.HasSuffix(np(x), "a.Timestamp") }); ok && strings.HasSuffix(np(rel.L), "a.Timestamp") && strings.HasSuffix(np(rel.R), "b.Timestamp") {
 					return rel.Op
 				}
 			}
@@ -511,4 +511,13 @@ func c15RunnerHelpers(w *World, r *Report) {
 		})
 		r.Check(st == 0, "R6", "Run/does-not-roll-back-the-in-memory-aggregation", run.Pos(), "Run never assigns state.aggregation itself (%d stores): UpdateAggregation keeps the combined value in memory even when the file write fails, and the next flush persists it", st)
 	}
+}
+
+// normFacing: the comparison v as a relation with the operand satisfying l on the left.
+func normFacing(v ssa.Value, l VP) (Rel, bool) {
+	rel, ok := NormCond(Cond{V: v, Pol: true})
+	if !ok {
+		return rel, false
+	}
+	return rel.Facing(l)
 }
